@@ -246,6 +246,13 @@ class Sim(object):
   def digest(self):
     return self._hash.hexdigest()
 
+  def switch_pair_hashes(self, cap=1500):
+    """Stable 32-bit hashes of the (site switched from, site switched to) pairs
+    seen in this run, for a cross-run count of distinct interleaving points."""
+    import zlib
+    hs = sorted(zlib.crc32(repr(p).encode()) for p in self.switch_pairs)
+    return hs[:cap]
+
   # -- running -------------------------------------------------------------
   def run(self):
     assert boot.CURRENT_SIM is None
